@@ -27,7 +27,10 @@
    pure list operations on [rtree].
 
    The record [variant] says which of the proposed fixes (proposed_fixes/C11-*.patch) are
-   applied; [shipped] is the code as it is in /repo, [fixed] the code with all of them.
+   applied; [shipped] is the code as it is in /repo (HEAD c2fa7c8, which already has
+   new_root_mut in set_architectures/add_profile, add_profile appending after the last
+   PROFILES node, and the builder writing an architecture list only when one was given),
+   [fixed] the code with all the patches.
 
    Panic sites:  30 detach in an immutable tree ("immutable tree")   31 attach into/of an immutable tree
      32 attach beyond the end (Vec::splice range)   33 splice_children on an immutable tree
@@ -47,17 +50,14 @@ Record variant := mk_variant {
   fx_insert_first : bool;   (* insert(idx, e) in front of an existing entry always adds ", " *)
   fx_append_sep : bool;     (* appending looks at the last significant child for the separator *)
   fx_pipe : bool;           (* From<Vec<Relation>> emits '|' under kind PIPE *)
-  fx_mut_root : bool;       (* set_architectures/add_profile re-root with new_root_mut *)
-  fx_add_profile : bool;    (* add_profile appends a group instead of replacing the first one *)
   fx_entry_push : bool;     (* Entry::push re-roots onto the new ENTRY, not onto a copy of the ROOT *)
-  fx_builder_archs : bool;  (* RelationBuilder::build skips an empty architecture list *)
   fx_version_pos : bool;    (* set_version inserts after the architecture qualifier *)
   fx_remove_last : bool;    (* Relation::remove of the only alternative removes the entry *)
   fx_first_substvar : bool; (* Entry::remove: a substitution variable in front counts as an item *)
   fx_replace_ws : bool      (* Entry::replace strips the new relation's white space token by token *)
 }.
-Definition shipped : variant := mk_variant false false false false false false false false false false false.
-Definition fixed : variant := mk_variant true true true true true true true true true true true.
+Definition shipped : variant := mk_variant false false false false false false false false.
+Definition fixed : variant := mk_variant true true true true true true true true.
 
 (* ------------------------------------------------------------------ lists *)
 Definition insert_at {A} (i : nat) (new l : list A) : list A := firstn i l ++ new ++ skipn i l.
@@ -704,32 +704,29 @@ Definition relation_set_version (v : variant) (r : nat) (ver : verspec) : M unit
   end.
 
 (* Relation::set_architectures *)
-Definition relation_set_architectures (v : variant) (r : nat) (archs : list str) : M unit :=
+Definition relation_set_architectures (r : nat) (archs : list str) : M unit :=
   h <- get_reg r ;; t <- node_of h ;;
   let cs := children t in
   match find_index (node_is ARCHITECTURES) cs with
   | Some i => splice_new r i (S i) (architectures_node archs)
   | None =>
     let idx := architectures_pos cs in
-    reroot r (fx_mut_root v) (set_children (insert_at idx [t_space; architectures_node archs] cs) t)
+    reroot r true (set_children (insert_at idx [t_space; architectures_node archs] cs) t)
   end.
 
-(* Relation::add_profile *)
-Definition relation_add_profile (v : variant) (r : nat) (g : list profile) : M unit :=
+(* Relation::add_profile: the new group goes after the last PROFILES node, else at the end *)
+Definition relation_add_profile (r : nat) (g : list profile) : M unit :=
   h <- get_reg r ;; t <- node_of h ;;
   let cs := children t in
-  match (if fx_add_profile v then None else find_index (node_is PROFILES) cs) with
-  | Some i => splice_new r i (S i) (profiles_node g)
-  | None =>
-    reroot r (fx_mut_root v) (set_children (insert_at (length cs) [t_space; profiles_node g] cs) t)
-  end.
+  let idx := match last_index (node_is PROFILES) cs with Some i => S i | None => length cs end in
+  reroot r true (set_children (insert_at idx [t_space; profiles_node g] cs) t).
 
 (* ------------------------------------------------------------------ building operands *)
 Inductive relspec : Type :=
 | RSParse (s : str)                                   (* s.parse::<Relation>() *)
 | RSSimple (name : str)                               (* Relation::simple *)
 | RSNew (name : str) (v : verspec)                    (* Relation::new *)
-| RSBuild (name : str) (v : verspec) (q : option str) (archs : list str) (profs : list (list profile))
+| RSBuild (name : str) (v : verspec) (q : option str) (archs : option (list str)) (profs : list (list profile))
 | RSLossy (name : str) (v : verspec) (q : option str) (archs : option (list str)) (profs : list (list profile)).
 Inductive entryspec : Type :=
 | ESParse (s : str)                                   (* s.parse::<Entry>() *)
@@ -771,28 +768,26 @@ Definition relation_parse (dst : nat) (s : str) : M unit :=
     end
   end.
 
-Fixpoint add_profiles (v : variant) (r : nat) (gs : list (list profile)) : M unit :=
+Fixpoint add_profiles (r : nat) (gs : list (list profile)) : M unit :=
   match gs with
   | [] => ret tt
-  | g :: rest => relation_add_profile v r g ;; add_profiles v r rest
+  | g :: rest => relation_add_profile r g ;; add_profiles r rest
   end.
-(* RelationBuilder::build *)
-Definition builder_build (v : variant) (dst : nat) (name : str) (ver : verspec) (q : option str)
-           (archs : list str) (profs : list (list profile)) : M unit :=
+(* RelationBuilder::build: the architecture list is written only when .architectures() was called *)
+Definition builder_build (dst : nat) (name : str) (ver : verspec) (q : option str)
+           (archs : option (list str)) (profs : list (list profile)) : M unit :=
   h <- alloc true (relation_new name ver) ;; set_reg dst (Some h) ;;
   (match q with Some q => relation_set_archqual dst q | None => ret tt end) ;;
-  (if fx_builder_archs v && match archs with [] => true | _ => false end then ret tt
-   else relation_set_architectures v dst archs) ;;
-  add_profiles v dst profs.
+  (match archs with Some a => relation_set_architectures dst a | None => ret tt end) ;;
+  add_profiles dst profs.
 
 Definition build_relation (v : variant) (dst : nat) (sp : relspec) : M unit :=
   match sp with
   | RSParse s => relation_parse dst s
   | RSSimple n => h <- alloc true (relation_new n None) ;; set_reg dst (Some h)
   | RSNew n ver => h <- alloc true (relation_new n ver) ;; set_reg dst (Some h)
-  | RSBuild n ver q archs profs => builder_build v dst n ver q archs profs
-  | RSLossy n ver q archs profs =>
-      builder_build v dst n ver q (match archs with Some a => a | None => [] end) profs
+  | RSBuild n ver q archs profs => builder_build dst n ver q archs profs
+  | RSLossy n ver q archs profs => builder_build dst n ver q archs profs
   end.
 
 (* build the relations one after the other into temporaries; the greens in order *)
@@ -896,8 +891,8 @@ Definition run_op (v : variant) (o : op) : M (N * option str) :=
       with_reg (rreg m) (b <- relation_drop_constraint (rreg m) ;; t <- reg_text (rreg m) ;;
                          ret (if b then 6%N else 7%N, t))
   | OSetArchqual m q => through (rreg m) (relation_set_archqual (rreg m) q)
-  | OSetArchs m l => through (rreg m) (relation_set_architectures v (rreg m) l)
-  | OAddProfile m g => through (rreg m) (relation_add_profile v (rreg m) g)
+  | OSetArchs m l => through (rreg m) (relation_set_architectures (rreg m) l)
+  | OAddProfile m g => through (rreg m) (relation_add_profile (rreg m) g)
   end.
 
 (* the root's text: Relations::to_string() *)
@@ -946,23 +941,36 @@ Definition parse_vc (s : str) : option vcn :=
   else if str_eqb s [62; 62]%N then Some VGt
   else if str_eqb s [60; 60]%N then Some VLt
   else None.
-(* Relation::version, the version as its text *)
+(* Relation::version: the IDENT and COLON tokens of the VERSION node joined (an epoch is lexed
+   IDENT COLON IDENT); None without a CONSTRAINT node or without version text *)
+Definition version_text_of (cs : list rtree) : str :=
+  flat_map (fun c => if tok_is IDENT c || tok_is COLON c then text c else []) cs.
 Definition rel_version (r : rtree) : res verspec :=
   match find (node_is VERSION) (children r) with
   | None => Ok None
   | Some vn =>
-    match find (node_is CONSTRAINT) (children vn), first_tok_text IDENT (children vn) with
-    | Some c, Some ver => match parse_vc (text c) with
-                          | Some vc => Ok (Some (vc, ver))
-                          | None => Panic 51
-                          end
-    | _, _ => Ok None
+    match find (node_is CONSTRAINT) (children vn), version_text_of (children vn) with
+    | None, _ => Ok None
+    | Some _, [] => Ok None
+    | Some c, ver => match parse_vc (text c) with
+                     | Some vc => Ok (Some (vc, ver))
+                     | None => Panic 51
+                     end
     end
   end.
-(* Relation::architectures: the IDENT tokens of the first ARCHITECTURES node *)
+(* Relation::architectures: the IDENT tokens of the first ARCHITECTURES node, "!" in front of
+   one that follows a NOT token *)
+Fixpoint arch_names (cs : list rtree) (negated : bool) : list str :=
+  match cs with
+  | [] => []
+  | c :: r =>
+    if tok_is NOT c then arch_names r true
+    else if tok_is IDENT c then (if negated then 33%N :: text c else text c) :: arch_names r false
+    else arch_names r negated
+  end.
 Definition rel_architectures (r : rtree) : option (list str) :=
   match find (node_is ARCHITECTURES) (children r) with
-  | Some a => Some (map text (filter (tok_is IDENT) (children a)))
+  | Some a => Some (arch_names (children a) false)
   | None => None
   end.
 (* Relation::profiles: the pieces between whitespace inside every PROFILES node *)
